@@ -13,6 +13,7 @@ import Model.Proto.Rep
 import Model.Proto.Mesh
 import Model.Proto.Surveyor
 import Model.Proto.Req
+import Model.Core
 import Generated.Facts
 open Model Model.Proto
 namespace Driver.Machines
@@ -30,6 +31,14 @@ def advance {σ : Type} [BEq σ] (cs : List σ) (stp : σ → List String → Li
   let rendered := (outs.map (fun x => obs x.2)).foldl (fun acc s => if acc.contains s then acc else acc ++ [s]) []
   (dedup.take 64, if outs.isEmpty then "<operation not enabled in the model>" else " | ".intercalate rendered)
 
+def advanceS {σ : Type} [BEq σ] (cs : List σ) (stp : σ → List String → List (σ × String)) (op : List String) (o : String) :
+    List σ × String :=
+  let outs := cs.flatMap (fun s => stp s op)
+  let ok := (outs.filter (fun x => x.2 == o)).map (·.1)
+  let dedup := ok.foldl (fun acc s => if acc.contains s then acc else acc ++ [s]) []
+  let rendered := (outs.map (·.2)).foldl (fun acc s => if acc.contains s then acc else acc ++ [s]) []
+  (dedup.take 64, if outs.isEmpty then "<operation not enabled in the model>" else " | ".intercalate rendered)
+
 structure State where
   sub : List Sub.State := [Sub.init]
   pub : List Pub.State := [Pub.init]
@@ -40,6 +49,7 @@ structure State where
   mesh : List Mesh.State := [Mesh.init .bus Generated.hop_xstar_drop]
   surv : List Surveyor.State := [Surveyor.init]
   req : List Req.State := [Req.init]
+  core : List Core.State := [Core.init]
   stuck : Bool := false      -- after a disagreement the scenario is abandoned until the next `new`
 
 /-- returns (new state, agrees?, expected rendering, branch) or none for an unknown tag -/
@@ -54,6 +64,7 @@ def step (s : State) (tag : String) (args : List String) (o : String) : Option (
     | "m.pull" => some ({ s with pull := [Pull.init], stuck := false }, true, "-", "new")
     | "m.surv" => some ({ s with surv := [Surveyor.init], stuck := false }, true, "-", "new")
     | "m.req" => some ({ s with req := [Req.init], stuck := false }, true, "-", "new")
+    | "m.core" => some ({ s with core := [Core.init], stuck := false }, true, "-", "new")
     | "m.mesh" =>
       let f := match args.getD 1 "" with
         | "bus" => Mesh.Flavor.bus
@@ -98,6 +109,9 @@ def step (s : State) (tag : String) (args : List String) (o : String) : Option (
   | "m.req" =>
     let (cs, exp) := advance s.req Req.step args o
     if cs.isEmpty then some ({ s with stuck := true }, false, exp, opName) else some ({ s with req := cs }, true, o, opName)
+  | "m.core" =>
+    let (cs, exp) := advanceS s.core Core.step args o
+    if cs.isEmpty then some ({ s with stuck := true }, false, exp, opName) else some ({ s with core := cs }, true, o, opName)
   | _ => none
 
 end Driver.Machines
